@@ -61,6 +61,21 @@ func relQual(p *types.Package) string {
 }
 
 // fld returns the current name of the field that plays the role.
+// fldOpt: like fld, but reports whether the role could be resolved instead of aborting (for rules
+// that exist only as long as the representation they describe does).
+func (c *Ctx) fldOpt(role string) (name string, ok bool) {
+	defer func() {
+		if r := recover(); r != nil {
+			if _, isAbort := r.(abortCheck); isAbort {
+				name, ok = "", false
+				return
+			}
+			panic(r)
+		}
+	}()
+	return c.fld(role), true
+}
+
 func (c *Ctx) fld(role string) string {
 	if c.roles == nil {
 		c.roles = map[string]string{}
@@ -267,6 +282,12 @@ func (c *Ctx) fieldTypeMatches(pkg string, t types.Type, want string) bool {
 	}
 	if n, ok := t.(*types.Named); ok && !n.Obj().Exported() {
 		if b, ok := n.Underlying().(*types.Basic); ok && b.Name() == want {
+			return true
+		}
+	}
+	// a fixed-size array in place of a slice of the same elements (a buffer of constant size)
+	if at, ok := t.Underlying().(*types.Array); ok && strings.HasPrefix(want, "[]") {
+		if types.TypeString(at.Elem(), relQual) == want[2:] {
 			return true
 		}
 	}
